@@ -172,6 +172,35 @@ let show_nstate = function NoiseFrame.NHello -> "hello" | NoiseFrame.NHandshake 
   | NoiseFrame.NReady -> "ready" | NoiseFrame.NClosed -> "closed"
 
 (* ---- connection model: labels in, projections out ---- *)
+(* arbitrary-size Z <-> decimal text (mantissas of binary64 do not fit OCaml's 63-bit int on all paths) *)
+let rec pos_of_string_digits (ds : int list) : positive option =
+  (* ds: decimal digits, most significant first; returns None for zero *)
+  let rec divmod2 ds carry acc = match ds with
+    | [] -> (Stdlib.List.rev acc, carry)
+    | d :: r -> let cur = carry * 10 + d in divmod2 r (cur mod 2) ((cur / 2) :: acc) in
+  let rec strip = function 0 :: r -> strip r | l -> l in
+  match strip ds with
+  | [] -> None
+  | ds' ->
+    let (q, bit) = divmod2 ds' 0 [] in
+    (match pos_of_string_digits q with
+     | None -> Some Coq_xH
+     | Some p -> Some (if bit = 1 then Coq_xI p else Coq_xO p))
+let z_of_string (s : string) : coq_Z =
+  let neg = Stdlib.String.length s > 0 && Stdlib.String.get s 0 = '-' in
+  let body = if neg then Stdlib.String.sub s 1 (Stdlib.String.length s - 1) else s in
+  let ds = Stdlib.List.init (Stdlib.String.length body) (fun i -> Stdlib.Char.code (Stdlib.String.get body i) - 48) in
+  match pos_of_string_digits ds with None -> Z0 | Some p -> if neg then Zneg p else Zpos p
+let string_of_pos (p : positive) : string =
+  (* little-endian decimal digit list *)
+  let double_add ds bit =
+    let rec go ds carry = match ds with
+      | [] -> if carry = 0 then [] else [carry]
+      | d :: r -> let v = d * 2 + carry in (v mod 10) :: go r (v / 10) in
+    go ds bit in
+  let rec conv = function Coq_xH -> [1] | Coq_xO q -> double_add (conv q) 0 | Coq_xI q -> double_add (conv q) 1 in
+  Stdlib.String.concat "" (Stdlib.List.rev_map string_of_int (conv p))
+let string_of_z = function Z0 -> "0" | Zpos p -> string_of_pos p | Zneg p -> "-" ^ string_of_pos p
 let z_of_int (i : int) : coq_Z = if i = 0 then Z0 else if i > 0 then Zpos (pos_of_int i) else Zneg (pos_of_int (-i))
 let int_of_z = function Z0 -> 0 | Zpos p -> int_of_pos p | Zneg p -> - (int_of_pos p)
 let lerr_names = [ "Conn", Conn.LConn; "SocketClosed", Conn.LSocketClosed; "PingFailed", Conn.LPingFailed;
@@ -293,6 +322,57 @@ let run_client (noise : bool) (expect : bool) (ka : int) (scr : string) (labels 
          go k1 r (i + 1)) in
   go k0 labels 0; Stdlib.Buffer.contents buf
 
+(* ---- C14: values and conversion ---- *)
+let ascii_of_char (c : char) : Ascii.ascii =
+  let i = Stdlib.Char.code c in let b k = (i lsr k) land 1 = 1 in Ascii.Ascii (b 0, b 1, b 2, b 3, b 4, b 5, b 6, b 7)
+let char_of_ascii (Ascii.Ascii (b0, b1, b2, b3, b4, b5, b6, b7)) : char =
+  let v b k = if b then 1 lsl k else 0 in Stdlib.Char.chr (v b0 0 + v b1 1 + v b2 2 + v b3 3 + v b4 4 + v b5 5 + v b6 6 + v b7 7)
+let coq_string_of (s : string) : String.string =
+  let rec go i = if i >= Stdlib.String.length s then String.EmptyString else String.String (ascii_of_char (Stdlib.String.get s i), go (i + 1)) in go 0
+let rec string_of_coq (l : String.string) : string =
+  match l with String.EmptyString -> "" | String.String (c, r) -> Stdlib.String.make 1 (char_of_ascii c) ^ string_of_coq r
+let rec parse_value (s : string) : Convert.value =
+  let n = Stdlib.String.length s in
+  let rest = Stdlib.String.sub s 1 (n - 1) in
+  match Stdlib.String.get s 0 with
+  | 'I' -> Convert.VInt (z_of_int (int_of_string rest))
+  | 'B' -> Convert.VBool (rest = "1")
+  | 'F' -> (match Stdlib.String.split_on_char ':' rest with
+            | [sg; m; e] -> Convert.VFloat (sg = "1", z_of_string m, z_of_string e) | _ -> failwith "float")
+  | 'X' -> Convert.VSpecialFloat (n_of_int (int_of_string rest))
+  | 'S' -> Convert.VStr (bytes_of_hex rest)
+  | 'N' -> Convert.VNone
+  | 'L' -> let inner = Stdlib.String.sub rest 1 (Stdlib.String.length rest - 2) in
+           Convert.VList (if inner = "" then [] else Stdlib.List.map parse_value (Stdlib.String.split_on_char '|' inner))
+  | _ -> failwith ("value " ^ s)
+let rec show_value = function
+  | Convert.VInt z -> "I" ^ string_of_int (int_of_z z)
+  | Convert.VBool b -> "B" ^ b01 b
+  | Convert.VFloat (sg, m, e) -> Printf.sprintf "F%s:%s:%s" (b01 sg) (string_of_z m) (string_of_z e)
+  | Convert.VSpecialFloat c -> "X" ^ string_of_int (int_of_n c)
+  | Convert.VStr b -> "S" ^ (let h = hex_of_bytes b in if h = "-" then "" else h)
+  | Convert.VNone -> "N"
+  | Convert.VList l -> "L[" ^ Stdlib.String.concat "|" (Stdlib.List.map show_value l) ^ "]"
+  | Convert.VRec _ -> "R"
+let parse_kind (k : string) : Convert.ckind =
+  match Stdlib.String.split_on_char '.' k with
+  | ["n"] -> Convert.KNone | ["f"] -> Convert.KFloatFix | ["c"] -> Convert.KListCopy
+  | ["e"; e] -> Convert.KEnum (coq_string_of e) | ["l"; e] -> Convert.KEnumList (coq_string_of e) | ["x"; c] -> Convert.KNestedList (coq_string_of c)
+  | _ -> failwith ("kind " ^ k)
+let run_frompb (enums : string) (fields : string) (record : string) : string =
+  let table = if enums = "-" then [] else Stdlib.List.map (fun e -> match Stdlib.String.split_on_char '=' e with
+      | [n; vs] -> (n, if vs = "" then [] else Stdlib.List.map (fun v -> z_of_int (int_of_string v)) (Stdlib.String.split_on_char ',' vs))
+      | _ -> failwith "enum") (Stdlib.String.split_on_char ';' enums) in
+  let members (e : String.string) = try Stdlib.List.assoc (string_of_coq e) table with Not_found -> [] in
+  let fs = Stdlib.List.map (fun f -> match Stdlib.String.split_on_char ':' f with
+      | [n; k] -> (coq_string_of n, parse_kind k) | _ -> failwith "field") (Stdlib.String.split_on_char ',' fields) in
+  let w = if record = "-" then [] else Stdlib.List.map (fun f -> match Stdlib.String.index_opt f '=' with
+      | Some i -> (coq_string_of (Stdlib.String.sub f 0 i), parse_value (Stdlib.String.sub f (i + 1) (Stdlib.String.length f - i - 1)))
+      | None -> failwith "record") (Stdlib.String.split_on_char ';' record) in
+  match Convert.from_pb members (fun sg m e -> FloatFix.fix_float sg m e) fs w with
+  | None -> "NONE"
+  | Some m -> Stdlib.String.concat ";" (Stdlib.List.map (fun (n, v) -> string_of_coq n ^ "=" ^ show_value v) m)
+
 let handle (line : string) : string =
   match words line with
   | "venc" :: v :: [] -> hex_of_bytes (Varint.enc (n_of_hex v))
@@ -325,6 +405,10 @@ let handle (line : string) : string =
      | None -> "none"
      | Some l -> if l = [] then "-" else Stdlib.String.concat "," (Stdlib.List.map (fun (t, p) -> hex_of_n t ^ ":" ^ hex_of_bytes p) l))
   | "client" :: nz :: ex :: ka :: scr :: labels -> run_client (nz = "1") (ex = "1") (int_of_string ka) scr labels
+  | ["fixf"; sg; m; e] ->
+    let ((s1, m1), e1) = FloatFix.fix_float (sg = "1") (z_of_string m) (z_of_string e) in
+    Printf.sprintf "%s %s %s" (b01 s1) (string_of_z m1) (string_of_z e1)
+  | ["frompb"; enums; fields; record] -> run_frompb enums fields record
   | "ka" :: h :: horizon :: arrs ->
     let hz = z_of_int (int_of_string h) in
     let obs = Keepalive.ka_sim (nat_of_int (4 * Stdlib.List.length arrs + 4000)) hz (Keepalive.ka_init hz)
